@@ -67,6 +67,7 @@ func init() {
 			input := map[string]any{"files": filesInput(ms)}
 			first := realMerge(ms.Names, ms.Texts, "1.2")
 			c.D.Add("corr:merge/repeat", mergeOp(ms.Names, ms.Texts, "1.2"), first.Out, input)
+			c.D.Add("hyp:FilesWF/repeat", mergeWFOp(ms.Names, ms.Texts), "(wf true)", input)
 			extFiles := 0
 			for _, f := range ms.Files {
 				for _, t := range f.Types {
